@@ -349,6 +349,8 @@ D(g, X, p, c, env) ==
     [] o = "pratt" -> DPratt(g, X, p, c, env, 0)
     [] o = "rec" -> D(g[2], X, p, c, <<g[2]>> \o env)
     [] o = "ref" -> D(env[g[2]], X, p, c, SubSeq(env, g[2], Len(env)))
+    [] o = "let" -> D(g[3], X, p, c, <<g[2]>> \o env)            \* sharing a parser value changes nothing
+    [] o = "var" -> D(env[g[2]], X, p, c, SubSeq(env, g[2] + 1, Len(env)))
     [] o = "withctx" -> D(g[3], X, p, g[2], env)
     [] o = "mapctx" -> D(g[3], X, p, MapFn(g[2], c), env)
     [] o \in {"thenctx", "ignctx"} ->
